@@ -45,7 +45,9 @@ func workload(seed int64, udp bool) scenario {
 	cmds := []scnCmd{{Name: "getdeviceid"}, {Name: "getchassisstatus"}, {Name: "getsystemguid"}, {Name: "getsdrrepoinfo"},
 		{Name: "authcaps", P: []int64{1, 14, 4}}, {Name: "sessioninfo", P: []int64{0, 0, 0}}, {Name: "powerreading", P: []int64{1, 0}},
 		{Name: "dcmisensorinfo", P: []int64{1, 65, 0, 1}}, {Name: "sensorreading", P: []int64{3, 0}}}
-	scripts := [][]string{{"ok"}, {"ok"}, {"busy", "ok"}, {"garbage", "ok"}, {"c3", "badsig", "ok"}}
+	// (dupprev: a stale duplicate of an earlier reply on this connection arrives first - a legal history on UDP, and one that
+	// takes the library down its "not the response to this command" path)
+	scripts := [][]string{{"ok"}, {"ok"}, {"busy", "ok"}, {"garbage", "ok"}, {"c3", "badsig", "ok"}, {"dupprev", "ok"}}
 	sc.Steps = append(sc.Steps, scnStep{Op: "cmd", Conn: "sessionless", Cmd: scnCmd{Name: "authcaps", P: []int64{1, 14, 4}}, Script: scripts[rng.Intn(len(scripts))]})
 	for round := 0; round < 1+rng.Intn(2); round++ {
 		var offered [][]int
